@@ -2203,3 +2203,25 @@ V(id='c39-mpq-neg-flips-denominator', prop='C39', file='mpmath/rational.py',
 V(id='c39-benign-mpq-pow-sign-first', prop='C39', file='mpmath/rational.py',
   old="                    a, b, t = b, a, -t\n                    # keep the denominator positive\n                    if b < 0:\n                        a, b = -a, -b\n",
   new="                    t = -t\n                    a, b = b, a\n                    if b < 0:\n                        a, b = -a, -b\n", expect='silent')
+V(id='c13-benign-exact-root-if-form', prop='C13', file='mpmath/libmp/libelefun.py',
+  old="        s = exact_nthroot(s, n, prec, r) or mpf_pos(r, prec, rnd)",
+  new="        root = exact_nthroot(s, n, prec, r)\n        if root is None:\n            s = mpf_pos(r, prec, rnd)\n        else:\n            s = root",
+  expect='silent')
+V(id='c13-exact-root-if-form-inverted', prop='C13', file='mpmath/libmp/libelefun.py',
+  old="        s = exact_nthroot(s, n, prec, r) or mpf_pos(r, prec, rnd)",
+  new="        root = exact_nthroot(s, n, prec, r)\n        s = mpf_pos(r, prec, rnd)\n        if root is None:\n            s = root",
+  expect='fire:E-X1:mpf_nthroot')
+
+# ---- C16 F-R11 (fix 73d2621): number operands of interval comparisons are exact ----
+V(id='c16-compare-number-as-enclosure', prop='C16', file='mpmath/ctx_iv.py',
+  old="            try:\n                t = s._operand(t)\n", new="            try:\n                t = s.ctx.convert(t)\n",
+  expect='fire:F-R11:_compare')
+V(id='c16-contains-number-as-enclosure', prop='C16', file='mpmath/ctx_iv.py',
+  old="    def __contains__(self, t):\n        t = self._operand(t)\n", new="    def __contains__(self, t):\n        t = self.ctx.mpf(t)\n",
+  expect='fire:F-R11:__contains__')
+V(id='c16-operand-rounded-to-prec', prop='C16', file='mpmath/ctx_iv.py',
+  old="            v = convert_mpf_(t, 0, round_floor)\n", new="            v = convert_mpf_(t, self.ctx.prec, round_floor)\n",
+  expect='fire:F-R11:_operand')
+V(id='c16-benign-operand-ceiling', prop='C16', file='mpmath/ctx_iv.py',
+  old="            v = convert_mpf_(t, 0, round_floor)\n", new="            v = convert_mpf_(t, 0, round_ceiling)\n",
+  expect='silent')
